@@ -3792,3 +3792,38 @@ package otto
 //@   requires rt != nil && rt.otto != nil && node != nil
 //@   at_call (*runtime).panicTypeError : len(arg1) == 4 && is(arg1[3], at) && int(arg1[3].(at)) == int(node.idx)
 //@   at_call newPropertyReference : arg0 == rt && arg1 == obj && arg2 == node.identifier && !arg3 && int(arg4) == int(node.idx)
+
+// 15.12.3 Str(key, holder): value = holder.[[Get]](key); step 2: an object's toJSON is called
+// with the value as this and the key; step 3: only THEN the replacer function is called, with
+// the holder as this and (key, value).
+//@ func builtinJSONStringifyWalk
+//@   props C11
+//@   nosafety
+//@   requires holder != nil && ctx.call.runtime != nil
+//@   calls (*object).get(holder, key) as g
+//@   calls (*object).get(_, "toJSON") as tj whenret false
+//@   at_call (Value).call : len(arg3) == 1 ==> called(g) && called(tj) && arg0 == tj && (key != "toJSON" ==> arg2 == g) && is(arg3[0], string) && arg3[0].(string) == key
+//@   at_call (Value).call : len(arg3) == 2 ==> called(g) && (key != "toJSON" && g.kind == valueObject ==> called(tj)) && arg2.kind == valueObject && is(arg2.value, *object) && arg2.value.(*object) == holder && is(arg3[0], string) && arg3[0].(string) == key
+
+// Export of a plain object: every enumerable property whose value is not undefined gets an
+// entry (null included - it exports to nil but stays present); undefined ones get none.
+//@ func (Value).export$1
+//@   props C15
+//@   nosafety
+//@   requires *obj != nil && *captured_result != nil
+//@   calls (*object).get(_, _) as g
+//@   calls (Value).export(_) as x whenret g.kind != valueUndefined
+//@   at_call (*object).get : arg0 == *obj && arg1 == name
+//@   at_call (Value).export : called(g) && arg0 == g && g.kind != valueUndefined
+//@   ensures result
+
+// A script object passed for a Go map parameter: a property that cannot be converted to the
+// element type stops the enumeration AND leaves its error in the enclosing call's err (so the
+// call fails instead of delivering a partial map).
+//@ func (*runtime).convertCallParameter$1
+//@   props C16
+//@   nosafety
+//@   requires *o != nil
+//@   calls (*runtime).convertCallParameter(_, _, _) as c
+//@   at_call (*object).get : arg0 == *o && arg1 == k
+//@   ensures called(c) && (c_1 != nil ==> !result && *captured_err != nil) && (c_1 == nil ==> result)
